@@ -404,7 +404,8 @@ def tile(values, count, var_spec, world: World):
     if t == "date":
         return numpy.array(vals, dtype="datetime64[D]")
     if t == "float":
-        return numpy.array(vals, dtype=numpy.float32)
+        # (non-finite values travel as text in scenario files: "nan", "inf", "-inf")
+        return numpy.array([float(v) for v in vals], dtype=numpy.float32)
     if t == "int":
         return numpy.array(vals, dtype=numpy.int32)
     if t == "bool":
